@@ -94,3 +94,11 @@ Theorem C20_histogram_wrappers :
   gen_walk_range = true /\ gen_walk_nbins = true.
 Proof. repeat split; reflexivity. Qed.
 Print Assumptions C20_histogram_wrappers.
+
+(* index products computed in C `int` cannot overflow while the array has
+   fewer than 2^31 elements (square arrays: up to N = 46340); beyond that the
+   behaviour is undefined — a stated limit, not checked by the wrappers *)
+Theorem C20_int_index_fits R C i j : (0 <= i < R -> 0 <= j < C -> R * C <= 2147483647 ->
+  0 <= i * C + j <= 2147483647 /\ 0 <= i * C <= 2147483647)%Z.
+Proof. exact (int_index_fits R C i j). Qed.
+Print Assumptions C20_int_index_fits.
